@@ -61,6 +61,10 @@ vars  == <<mvars, hist>>
 K(k, s, c) == [k |-> k, slot |-> s, cat |-> c]
 KT == <<
   K("legacyDelay",     "stamp",       "payload"),   \* XEP-0091 (only reachable by parsing)
+  \* origin class `parsed`: the message came from XML in which a sensitive element occurs TWICE -- the default one and
+  \* a language variant <body xml:lang='de'/> (RFC 6121 5.2.3); both texts are distinctive and sensitive
+  K("bodyLang",        "body",        "payload"),
+  K("subjectLang",     "subject",     "payload"),
   K("to",              "to",          "routing"),
   K("from",            "from",        "routing"),
   K("id",              "id",          "routing"),
@@ -199,6 +203,8 @@ SetSteps(B) == IF B = {} THEN <<>>
                ELSE LET k == CHOOSE x \in B : \A y \in B : Idx(x) <= Idx(y)
                     IN  <<[a |-> "Set", k |-> k]>> \o SetSteps(B \ {k})
 
+ParsedKinds == {"legacyDelay", "bodyLang", "subjectLang"}
+
 Init ==
     /\ \E B \in Bases : msg = B /\ base = B /\ hist = SetSteps(B)
     /\ phase = "compose"
@@ -209,7 +215,7 @@ Set(k) ==
     /\ Cardinality(msg \ base) < MaxSet
     /\ \A j \in msg : SlotOf(j) # SlotOf(k)
     /\ Ordered => \A j \in msg \ base : Idx(j) < Idx(k)
-    /\ k = "legacyDelay" => msg = {}      \* no setter: held only by a message that was parsed from one
+    /\ k \in ParsedKinds => msg = {}       \* no setter: held only by a message that was parsed from XML
     /\ msg' = msg \cup {k}
     /\ Log([a |-> "Set", k |-> k])
     /\ UNCHANGED <<base, phase, pub, sens, all, rec, wire>>
@@ -246,7 +252,7 @@ BasesSend == {{}, {"body"}, {"body", "fallbackBody"}}
 
 Enc(style, S) ==
     IF style = "plain" THEN S
-    ELSE LET c == "body" \in S \/ "trustMessage" \in S
+    ELSE LET c == "body" \in S \/ "bodyLang" \in S \/ "trustMessage" \in S
          IN  IF c THEN ((S \ SlotKinds("eme")) \cup {"emeOmemo2", "fallbackBody", "fallbackMarker"})
                   ELSE S \ {"fallbackMarker"}
 
